@@ -281,3 +281,28 @@ def test_c18_by_value_assignment_does_not_alias_nested_parts():
     o.mid = m
     o.mid.inn.a = 77
     assert m.inn.a == 5 and o._xobject.mid.inn.a == 77
+
+
+def test_c01_copy_of_array_with_small_capacity_strings():
+    A = xo.String[:]
+    src = A([5, 8])
+    src[1] = "cd"
+    dst = A(src)
+    assert [dst[0], dst[1]] == ["", "cd"]
+
+
+def test_c03_copy_of_struct_with_refs_and_small_capacity_strings_stays_in_its_extent():
+    class P(xo.Struct):
+        a = xo.Int64
+
+    class S(xo.Struct):
+        r = xo.Ref[P]
+        s = xo.String[2]
+
+    src = S(r={"a": 1}, s=[3, 5])
+    b = ctx.new_buffer(0)
+    c = S(src, _buffer=b)
+    tail = b.allocate(8)
+    b.update_from_buffer(tail, b"\x11" * 8)
+    assert [c.s[0], c.s[1], c.r.a] == ["", "", 1]
+    assert c._offset + c._size <= tail
